@@ -1,0 +1,99 @@
+// SPDX-FileCopyrightText: 2026 The Pion community <https://pion.ly>
+// SPDX-License-Identifier: MIT
+
+//go:build verif
+
+package sctp
+
+// Pending-queue policies and stream schedulers (C17).
+
+func specQHead(b *pendingBaseQueue) *chunkPayloadData {
+	if len(b.queue) == 0 {
+		return nil
+	}
+
+	return b.queue[0]
+}
+
+func specWFQWeight(q *weightedFairQueueingPendingQueuePolicy, sid uint16) float64 {
+	w := float64(q.weights[sid])
+	if w == 0 {
+		return 1
+	}
+
+	return w
+}
+
+//@ func pendingBaseQueue.push
+//@   ensures#appended-at-the-tail{C17} len(q.queue) == old(len(q.queue))+1 && q.queue[old(len(q.queue))] == c
+//@   ensures#older-entries-keep-their-place{C17} forall i int :: 0 <= i && i < old(len(q.queue)) ==> q.queue[i] == old(q.queue[i])
+//@   modifies q.queue, q.queue[*]
+//@   tags C17
+
+//@ func pendingBaseQueue.pop
+//@   ensures#fifo{C17} result == old(specQHead(q))
+//@   ensures#rest-keeps-its-order{C17} old(len(q.queue)) > 0 ==> sameSlice(q.queue, old(q.queue[1:]))
+//@   ensures#rest-keeps-its-entries{C17} forall i int :: 0 <= i && i < len(q.queue) ==> q.queue[i] == old(q.queue[i+1])
+//@   ensures#empty-stays-empty old(len(q.queue)) == 0 ==> len(q.queue) == 0
+//@   modifies q.queue, q.queue[*]
+//@   tags C17
+
+//@ func pendingBaseQueue.get
+//@   ensures#head i == 0 ==> result == specQHead(q)
+//@   modifies nothing
+//@   tags C17
+
+// ---- message-at-a-time policy: without interleaving a message, once started, is popped to its last fragment ----
+
+//@ func messagePendingQueuePolicy.push
+//@   requires#queues q.unorderedQueue != nil && q.orderedQueue != nil && q.unorderedQueue != q.orderedQueue && chunk != nil
+//@   ensures#queued-by-kind-at-the-tail{C17} old(chunk.unordered) ==>
+//@      len(q.unorderedQueue.queue) == old(len(q.unorderedQueue.queue))+1 && q.unorderedQueue.queue[old(len(q.unorderedQueue.queue))] == chunk &&
+//@      len(q.orderedQueue.queue) == old(len(q.orderedQueue.queue))
+//@   ensures#queued-by-kind-at-the-tail{C17} !old(chunk.unordered) ==>
+//@      len(q.orderedQueue.queue) == old(len(q.orderedQueue.queue))+1 && q.orderedQueue.queue[old(len(q.orderedQueue.queue))] == chunk &&
+//@      len(q.unorderedQueue.queue) == old(len(q.unorderedQueue.queue))
+//@   ensures#selection-untouched{C17} q.selected == old(q.selected) && q.unorderedIsSelected == old(q.unorderedIsSelected)
+//@   tags C17
+
+//@ func messagePendingQueuePolicy.peek
+//@   requires#queues q.unorderedQueue != nil && q.orderedQueue != nil
+//@   ensures#selected-message-continues{C17} q.selected ==> result == ite(q.unorderedIsSelected, specQHead(q.unorderedQueue), specQHead(q.orderedQueue))
+//@   ensures#unordered-first-between-messages{C17,C06} !q.selected ==>
+//@      result == ite(specQHead(q.unorderedQueue) != nil, specQHead(q.unorderedQueue), specQHead(q.orderedQueue))
+//@   modifies nothing
+//@   tags C17
+
+//@ func messagePendingQueuePolicy.pop
+//@   requires#queues q.unorderedQueue != nil && q.orderedQueue != nil && q.unorderedQueue != q.orderedQueue && chunkPayload != nil
+//@   ensures#only-a-first-fragment-starts-a-message{C17} !old(q.selected) && !old(chunkPayload.beginningFragment) ==>
+//@      result != nil && !q.selected && len(q.unorderedQueue.queue) == old(len(q.unorderedQueue.queue)) && len(q.orderedQueue.queue) == old(len(q.orderedQueue.queue))
+//@   ensures#message-stays-selected-until-its-last-fragment{C17} result == nil ==> q.selected == !old(chunkPayload.endingFragment)
+//@   ensures#selection-sticks-to-its-queue{C17} result == nil && old(q.selected) ==> q.unorderedIsSelected == old(q.unorderedIsSelected)
+//@   ensures#selection-follows-the-first-fragment{C17} result == nil && !old(q.selected) && q.selected ==> q.unorderedIsSelected == old(chunkPayload.unordered)
+//@   ensures#pops-the-head-of-the-selected-queue{C17} result == nil ==>
+//@      chunkPayload == old(ite(ite(q.selected, q.unorderedIsSelected, chunkPayload.unordered), specQHead(q.unorderedQueue), specQHead(q.orderedQueue)))
+//@   ensures#other-queue-untouched{C17} old(ite(q.selected, q.unorderedIsSelected, chunkPayload.unordered)) ==> len(q.orderedQueue.queue) == old(len(q.orderedQueue.queue))
+//@   ensures#other-queue-untouched{C17} !old(ite(q.selected, q.unorderedIsSelected, chunkPayload.unordered)) && (old(q.selected) || old(chunkPayload.beginningFragment)) ==>
+//@      len(q.unorderedQueue.queue) == old(len(q.unorderedQueue.queue))
+//@   tags C17
+
+// ---- weighted fair queueing: start tag = max(virtual time, own last finish), finish = start + len/weight ----
+
+//@ func weightedFairQueueingPendingQueuePolicy.Push
+//@   requires#real-chunk typeIs(chunk, (*chunkPayloadData)(nil)) && chunk.chunkPayloadData() != nil
+//@   ensures#finish-tag-starts-at-max-of-virtual-time-and-own-last-finish{C17} feq(q.streamFinish[chunk.StreamIdentifier()],
+//@      old(math.Max(q.virtualTime, q.streamFinish[chunk.StreamIdentifier()])+float64(chunk.UserDataLen())/specWFQWeight(q, chunk.StreamIdentifier())))
+//@   at mapupdate weightedFairQueueingPendingQueuePolicy.streamFinish assert#start-tag-is-max-of-virtual-time-and-own-last-finish{C17}
+//@      key == chunk.StreamIdentifier() && feq(start, math.Max(q.virtualTime, q.streamFinish[key])) && feq(stored, finish)
+//@   ensures#chunk-carries-its-finish-tag{C17} feq(q.chunkFinish[chunk.chunkPayloadData()], q.streamFinish[chunk.StreamIdentifier()])
+//@   ensures#virtual-time-untouched{C17} feq(q.virtualTime, old(q.virtualTime)) && q.streamSelected == old(q.streamSelected) && q.selectedStream == old(q.selectedStream)
+//@   tags C17
+
+//@ func weightedFairQueueingPendingQueuePolicy.Pop
+//@   requires#real-chunk typeIs(chunkPayload, (*chunkPayloadData)(nil)) && chunkPayload.chunkPayloadData() != nil
+//@   ensures#virtual-time-advances-to-the-served-finish-tag{C17} result == nil ==>
+//@      feq(q.virtualTime, old(math.Max(q.virtualTime, q.chunkFinish[chunkPayload.chunkPayloadData()]))) && !q.streamSelected
+//@   ensures#failed-pop-keeps-the-clock{C17} result != nil ==> feq(q.virtualTime, old(q.virtualTime))
+//@   ensures#needs-a-selection{C17} !old(q.streamSelected) ==> result != nil
+//@   tags C17
